@@ -596,7 +596,7 @@ func (db *DB) loadBorrowedEntry(internalKey []byte) (*kv.Entry, error) {
 	}
 	var vp kv.ValuePtr
 	vp.Decode(entry.Value)
-	result, cb, readErr := db.vlog.read(&vp)
+	result, cb, readErr := db.vlog.readOf(entry.Key, &vp)
 	if cb != nil {
 		defer kv.RunCallback(cb)
 	}
